@@ -45,10 +45,17 @@ Theorem fanout_partial : forall D old choose choose_rot, 1 <= D ->
 Proof. exact (fun D old c cr HD => fanout_partial_l D old c cr HD). Qed.
 Print Assumptions fanout_partial.
 
-(* the full statement: the panic branch of mergeNodes (2 <= b-a <= maxDegree) and the index
-   expressions of merge/collapse are unreachable.  Not proved; exercised by the harness. *)
+(* the full statement - the panic branch of mergeNodes (2 <= b-a <= maxDegree) and the index
+   expressions of merge/collapse are unreachable - is FALSE of the code as it is: *)
 Definition fanout_full : Prop := forall D old choose choose_rot, 2 <= D ->
   forall prog, run D old choose choose_rot prog <> Err Panic.
+
+(* 3968 pages (15 subtrees of depth 2, 8 of depth 1), NewRange, 9 pages, Close: merge() leaves 16 nodes
+   of depth 2 followed by one page and collapse asks mergeNodes to merge that single node.
+   Confirmed on the real pagetree.Writer ("invalid subtree node range 16, 17"); finding in findings/C16.json *)
+Theorem fanout_refuted : exists prog, NoDup (append_ids prog) /\ run_model false prog = Err Panic.
+Proof. exact fanout_refuted_l. Qed.
+Print Assumptions fanout_refuted.
 
 (* hoisting never changes a page's effective MediaBox, CropBox, Rotate (modulo its default 0),
    AA or Resources: what Iterator.All reports is what the page was given *)
